@@ -136,6 +136,13 @@ def generate(seed, tier):
                  "compound": wrng.random() < 0.6,
                  "inlinelimit": wrng.choice((1, 1, 3))}
         layouts.append({"ops": layout_ops(wrng, rounds), "knobs": knobs})
+    # "forall writer front-ends": one more layout drives the same operations through a BufferedWriter whose
+    # flush timer (a thread of its own) and limit decide how the commits are split
+    br = random.Random("%s/buffered" % seed)
+    flat = [op for rnd in rounds for op in rnd]
+    if br.random() < 0.3 and not any(op[0] == "group" for op in flat):
+        layouts.append({"ops": flat, "knobs": {"compound": br.random() < 0.6},
+                        "frontend": {"kind": "buffered", "period": br.choice((0.002, 0.01, 0.05, 1.0)), "limit": br.choice((2, 3, 5, 100))}})
     # 20% of the runs end, in every layout, with a field taken out of the schema and the index-level
     # ix.optimize(): whatever the layout was, optimizing must physically drop the removed field
     xr = random.Random("%s/remove" % seed)
@@ -144,6 +151,8 @@ def generate(seed, tier):
     if removable and xr.random() < 0.2:
         removed = xr.choice(removable)
         for lay in layouts:
+            if lay.get("frontend"):
+                continue
             lay["ops"] = lay["ops"] + [["writer", {}], ["remove_field", removed], ["commit", {"merge": "none"}], ["ix_optimize"]]
     from whoosim import queries as Q
     qr = random.Random("%s/queries" % seed)
@@ -298,6 +307,43 @@ def make_hooks(s, record, state):
     return {"after_commit": after_commit, "finish": finish, "before_commit": before_commit}
 
 
+def run_buffered_layout(s, actor, hooks, lay, state):
+    """The layout's operations through a BufferedWriter: its limit and its flush timer (a simulated
+    thread scheduled against the caller at every storage event) split them into commits."""
+    from whoosh.writing import BufferedWriter
+    fe = lay["frontend"]
+    ix = actor.ensure_index()
+    state["merged"] = True    # its flushes commit with the default merge policy
+
+    def guard(fn, what):
+        try:
+            return fn()
+        except (SimAbort, SimKilled, HarnessError, Violation):
+            raise
+        except Exception as e:  # noqa
+            raise Violation("frontend_raised", "BufferedWriter.%s raised %s: %s" % (what, type(e).__name__, e), sig="frontend_raised:buffered:%s:%s" % (what, exc_sig(e)))
+    bw = guard(lambda: BufferedWriter(ix, period=fe["period"], limit=fe["limit"], writerargs=dict(s.cfg.writer_kwargs())), "__init__")
+    for op in lay["ops"]:
+        s.k.event("step", "bw." + op[0])
+        mw = s.model.writer()
+        if op[0] == "add":
+            guard(lambda: bw.add_document(**op[1]), "add_document")
+            mw.add(op[1])
+        elif op[0] == "update":
+            guard(lambda: bw.update_document(**op[1]), "update_document")
+            mw.update(op[1])
+        elif op[0] == "del_term":
+            guard(lambda: bw.delete_by_term(op[1], op[2]), "delete_by_term")
+            mw.delete_by_term(op[1], op[2])
+        mw.commit()
+    guard(lambda: bw.close(), "close")
+    s.count("commits")
+    s.count("buffered_layouts")
+    actor.commits += 1
+    actor.last_commit_kind = "buffered"
+    hooks["after_commit"](actor)
+
+
 def run_layout(record, li, trace=False):
     lay = record["layouts"][li]
     conf = dict(record["config"])
@@ -309,7 +355,10 @@ def run_layout(record, li, trace=False):
         hooks = make_hooks(s, record, state)
         actor = HistActor(s, after_commit=hooks["after_commit"], before_commit=hooks["before_commit"])
         try:
-            actor.run(lay["ops"])
+            if lay.get("frontend"):
+                run_buffered_layout(s, actor, hooks, lay, state)
+            else:
+                actor.run(lay["ops"])
             hooks["finish"](actor)
             st = s.full_stats()
             st.update(s.k.counters)
